@@ -37,6 +37,8 @@ CASES = [
     ("uncommit", [["new", "-m", "a", "a"], ["!write", "f.txt", "1\n"], ["refresh"], ["commit"]],
      ["uncommit", "u"]),
     ("new", [["new", "-m", "a", "a"]], ["new", "-m", "n", "n"]),
+    # the first patch of a stack / the last patch leaving it: the state before resp. after is empty
+    ("new-first", [], ["new", "-m", "n", "n"]),
     ("refresh", [["new", "-m", "a", "a"], ["!write", "f.txt", "1\n"]], ["refresh"]),
     ("spill", [["new", "-m", "a", "a"], ["!write", "f.txt", "1\n"], ["refresh"]], ["spill"]),
     ("clean", [["new", "-m", "a", "a"], ["new", "-m", "b", "b"], ["!write", "f.txt", "1\n"], ["refresh"]],
